@@ -32,6 +32,8 @@ var c20Scenarios = []c20Scenario{
 	{"overwrite-smaller-old", true, true, false, false},
 	{"overwrite-larger-old", true, true, true, false},
 	{"overwrite-no-clobber", true, true, false, true},
+	{"first-store-no-clobber", true, false, false, true},
+	{"first-store-missing-directory-no-clobber", false, false, false, true},
 }
 
 var c20Sizes = []int{100, 1000, 8000, 64000}
@@ -169,7 +171,7 @@ func c20Plan(tier string) (cases [][3]int) { // scenario, size index, chunk
 func init() {
 	core.Register(&core.Prop{
 		ID: "C20", Level: "fault_enumeration",
-		Rule: "for each scenario (first store into a missing directory, into an existing one, overwrite of a smaller and of a larger entry, overwrite with no-clobber) and document size (0.1, 1, 8, 64 KB) the storing child " +
+		Rule: "for each scenario (first store into a missing directory, into an existing one, overwrite of a smaller and of a larger entry, overwrite with no-clobber, first store with no-clobber into an existing and into a missing directory) and document size (0.1, 1, 8, 64 KB) the storing child " +
 			"(one Store through the FileSystem backend, uid 65534) runs under a ptrace tracer that follows all threads and numbers, in one global order, the entry and exit stops of every file-system syscall touching the store directory. A fault-free run fixes the stop sequence; then the child is SIGKILLed at EVERY stop, " +
 			"and for every write to a file in the directory at each chosen prefix length (quick: 0,1,2,3, every top-level field boundary of the protobuf encoding +-1, half, len-2, len-1, padded to >=48 PRNG-chosen prefixes; thorough: EVERY prefix for documents <=8 KB, 4096 stratified prefixes at 64 KB) " +
 			"the length register is rewritten at the syscall entry, the kernel performs the short write and the child is killed at the exit. After each trial a fresh process retrieves the target id and two bystander ids; the outcome must be the complete old document, the complete new one, or an error return " +
